@@ -236,7 +236,8 @@ def verify_shape(ctx, r: Rust):
             seq = [(e.name, e.args[0] if e.args else None) for e in evs]
             want_clear = [i for i, (n, a) in enumerate(seq) if n == 'Vec::clear' and a == stack]
             idx = [i for i, (n, a) in enumerate(seq) if n == 'execute_instructions']
-            if not (len(want_clear) >= 2 and idx[0] < want_clear[0] < idx[1] < want_clear[1] < idx[2]):
+            # between two consecutive phases the stack is cleared (a clear before the first phase, on the fresh stack, is harmless)
+            if not all(any(idx[i] < c < idx[i + 1] for c in want_clear) for i in (0, 1)):
                 ok_all, detail = False, 'the stack is not cleared between phases'
             if any(n == 'Vec::clear' and a in (memory, claims) for n, a in seq):
                 ok_all, detail = False, 'memory or claims are cleared between phases'
